@@ -82,7 +82,7 @@ UNITS = {
                   assumptions=SHIM_ASSUMPTIONS),
     'K-2Q': dict(engine='kani', jobs=6, files=['harness_two_queue.rs'], support_files=['gen.rs'],
                  module={'harness_two_queue.rs': 'lru::two_queue::verif_hooks::harness'},
-                 n=dict(quick=2, thorough=2), bound='size in 1..={N}, quota in 0..=size, ghost bound in 1..=size, each queue <= {N} entries',
+                 n=dict(quick=1, thorough=2), bound='size in 1..={N}, quota in 0..=size, ghost bound in 1..=size, each queue <= {N} entries',
                  timeout=dict(quick=1800, thorough=7200),
                  functions=[dict(function='TwoQueueCache::' + f, file='src/lru/two_queue.rs', line=0, props=['C01', 'C02', 'C03', 'C05', 'C08', 'C12', 'C13', 'C14'])
                             for f in ['put', 'get', 'get_mut', 'peek', 'peek_mut', 'contains', 'remove', 'purge', 'len', 'cap', 'is_empty', 'move_to_frequent',
@@ -90,7 +90,7 @@ UNITS = {
                  assumptions=SHIM_ASSUMPTIONS),
     'K-ARC': dict(engine='kani', jobs=5, files=['harness_adaptive.rs'], support_files=['gen.rs'],
                   module={'harness_adaptive.rs': 'lru::adaptive::verif_hooks::harness'},
-                  n=dict(quick=2, thorough=2), bound='size in 1..={N}, p in 0..=size, each of the four lists <= {N} entries',
+                  n=dict(quick=1, thorough=2), bound='size in 1..={N}, p in 0..=size, each of the four lists <= {N} entries',
                   timeout=dict(quick=1800, thorough=7200),
                   functions=[dict(function='AdaptiveCache::' + f, file='src/lru/adaptive.rs', line=0, props=['C01', 'C02', 'C03', 'C05', 'C09', 'C12', 'C13', 'C14'])
                              for f in ['put', 'replace', 'get', 'get_mut', 'peek', 'peek_mut', 'contains', 'remove', 'purge', 'len', 'cap', 'is_empty', 'move_to_frequent', 'partition',
@@ -115,7 +115,7 @@ UNITS = {
     'K-WTLFU': dict(engine='kani', jobs=6, files=['harness_wtinylfu.rs'], support_files=['gen.rs'],
                     module={'harness_wtinylfu.rs': 'lfu::wtinylfu::verif_hooks::harness'},
                     configs=['std', 'nostd'],
-                    n=dict(quick=2, thorough=2), bound='window, probationary, protected: length <= {N}, capacity in 1..={N}; sketch rows of 2, 4 or 8 counters, one-word doorkeeper with 1..2 probes, sample size <= 4',
+                    n=dict(quick=1, thorough=2), bound='window, probationary, protected: length <= {N}, capacity in 1..={N}; sketch rows of 2, 4 or 8 counters, one-word doorkeeper with 1..2 probes, sample size <= 4',
                     timeout=dict(quick=1800, thorough=7200),
                     functions=[dict(function='WTinyLFUCache::' + f, file='src/lfu/wtinylfu.rs', line=0, props=['C01', 'C02', 'C03', 'C05', 'C10', 'C12', 'C13', 'C16', 'C17'])
                                for f in ['put', 'get', 'get_mut', 'peek', 'peek_mut', 'contains', 'remove', 'purge', 'len', 'cap', 'is_empty',
@@ -134,7 +134,7 @@ UNITS = {
                    support_files=['gen.rs', 'harness_raw.rs'], match=r'_leakcheck$', configs=['stdleak'],
                    module={'harness_raw_life.rs': 'lru::raw::verif_hooks::harness_life', 'harness_segmented.rs': 'lru::segmented::verif_hooks::harness',
                            'harness_two_queue.rs': 'lru::two_queue::verif_hooks::harness', 'harness_adaptive.rs': 'lru::adaptive::verif_hooks::harness'},
-                   n=dict(quick=2, thorough=2), bound='each list <= {N} entries; 32 tracked object ids',
+                   n=dict(quick=1, thorough=2), bound='each list <= {N} entries; 32 tracked object ids',
                    timeout=dict(quick=2400, thorough=7200),
                    functions=[dict(function=f, file='src/lru/*.rs', line=0, props=['C04', 'C03'])
                               for f in ['RawLRU::{put, remove, remove_lru, purge, resize, drop}', 'SegmentedCache::{put, put_protected, drop}', 'TwoQueueCache::{put, drop}', 'AdaptiveCache::{put, replace, drop}']],
